@@ -4,7 +4,7 @@ import itertools
 import random
 import sys
 
-from common import compare_cases, standard_main, run_cli_many, parse_text_spectrum
+from common import compare_cases, standard_main, run_cli_many, run_model, parse_text_spectrum
 from callsets import render_vcf, model_records, model_samples, cli_samples_arg, model_project, cli_project_arg
 from gen_create import random_callset, random_map, pop_sizes, random_projection
 from fractions import Fraction
@@ -14,7 +14,7 @@ RULE = ("catalogue of 9 site classes (complete, complete other counts, partially
         "multiallelic, insufficient for the projection, exactly sufficient, all-missing, monomorphic) for 4 samples in 2 "
         "populations: ALL ordered pairs and triples (quick: all pairs + seeded triples) x {no projection, 3 projection "
         "targets} through site::Reader, each record's Site value compared with the model (whose per-record result is proved "
-        "state-independent); on the binary: create(A++B) = create(A) + create(B) and every tested permutation of the "
+        "state-independent); the same histories and 4-8 record histories as whole runs with 8 boundary targets (a population projected to length 1, no reduction) against the model's spectrum; on the binary: create(A++B) = create(A) + create(B) and every tested permutation of the "
         "records prints identical bytes without projection, equal within 1e-9*records with. non-trivial = history with "
         ">= 2 different classes")
 
@@ -48,12 +48,42 @@ def check(rep, tier, seed):
     compare_cases(rep, "site-histories", cases, tol=TOL, nontrivial=lambda c, m: len(set(m.split()[1:-1])) > 1,
                   classify=lambda c, m, i: "state-leak:site-reader", spec=True, both_builds=(tier == "thorough"))
 
+    # whole runs over the same histories (the spectrum, i.e. after the projection's scratch buffer has been reused from record
+    # to record), with targets on the boundary: a population projected away (length 1), no reduction (length 5)
+    PROJS_RUN = [("s", [1, 5]), ("s", [5, 1]), ("s", [1, 1]), ("s", [1, 3]), ("s", [3, 1]), ("s", [2, 2]), ("s", [5, 5]), ("s", [4, 5])]
+    runs = []
+    hs = hist if tier == "thorough" else [h for h in hist if len(h) == 2] + rng.sample([h for h in hist if len(h) == 3], 120)
+    longer = [[rng.choice(names) for _ in range(rng.randrange(4, 9))] for _ in range(30 if tier == "quick" else 300)]
+    for h in hs + longer:
+        for pr in (PROJS_RUN if tier == "thorough" or len(h) > 3 else rng.sample(PROJS_RUN, 3)):
+            recs_h = [CLASSES[c] for c in h]
+            runs.append(("create 0 %s %s %s %s" % (",".join(COLS), model_samples(SM), model_project(pr), model_records(recs_h)),
+                         ["create", "--precision", "12"] + cli_samples_arg(SM) + cli_project_arg(pr), render_vcf(COLS, recs_h)))
+    exps = run_model([r[0] for r in runs])
+    outs = run_cli_many([(r[1], r[2]) for r in runs])
+    for (mc, argv, vcf), exp, (rc, so, se) in zip(runs, exps, outs):
+        rep.count("run-histories", mc, True)
+        if exp.startswith("OK"):
+            e = exp.split()
+            p = parse_text_spectrum(so)
+            ok = rc == 0 and p is not None and p[0] == [int(x) for x in e[1].split(",")] and len(p[1]) == len(e[2].split(",")) and \
+                all(abs(Fraction(t) - Fraction(x)) <= Fraction(1, 10**9) for t, x in zip(p[1], e[2].split(",")))
+        else:
+            ok = rc != 0 and so == b""
+        if not ok:
+            rep.fail(kind="cli-vs-model", cls="state-leak:projection-run", case=mc, argv=["sfs"] + argv, stdin=vcf.decode(),
+                     observed={"rc": rc, "stdout": so.decode(errors="replace")[:300]}, expected=exp[:300],
+                     detail="the spectrum of a run over this history of site classes differs from the proved model's (sum of per-record contributions)")
+
     # additivity and permutation on the binary
     jobs, meta = [], []
     for k in range(40 if tier == "quick" else 400):
         cols, recs = random_callset(rng, nsamples=rng.randrange(2, 8), nrecords=rng.randrange(2, 16), p_skip=0.3)
         sm = random_map(rng, cols)
         pr = None if k % 2 == 0 else random_projection(rng, pop_sizes(sm))
+        if pr is not None and k % 4 == 1:
+            # boundary targets: some populations projected away entirely (length 1), the others kept or reduced
+            pr = ("s", [1 if rng.random() < 0.5 else rng.randrange(1, 2 * n + 2) for n in pop_sizes(sm)])
         cut = rng.randrange(0, len(recs) + 1)
         perm = recs[:]; rng.shuffle(perm)
         argv = ["create", "--precision", "12"] + cli_samples_arg(sm) + cli_project_arg(pr)
